@@ -347,6 +347,11 @@ class Tx:
         if k in ("in", "notin"):
             c = ("atom", f"in({sname(x)},{sname(y)})")
             return c if k == "in" else c_not(c)
+        if k in ("eq", "ne") and "None" in (sname(x), sname(y)):
+            # `x == None` is `x is None` (for objects that do not override __eq__: the repository compares nodes and plain values)
+            other = x if sname(y) == "None" else y
+            c = ("atom", f"isnone({sname(other)})")
+            return c if k == "eq" else c_not(c)
         if k in ("eq", "ne"):
             d = sp.cancel(x - y) if _arith(x) and _arith(y) else None
             if d is not None and d.is_Number:
